@@ -3,6 +3,6 @@ CONSTANTS
  DrainBug = TRUE
  LinkCode = TRUE
  DupPathBug = TRUE
- Table <- QuickTable
+ Ids <- QuickIds
 INVARIANTS PropHoldsButKnown KnownReproduced Ordered PassBound
 CHECK_DEADLOCK TRUE
